@@ -1641,6 +1641,15 @@ bool SchindelhauerTMCG::TMCG_VerifyStackEquality
 			in >> ss;
 			if (!in.good())
 				throw false;
+			// check whether the received secret fits the stacks
+			if (ss.size() != s.size())
+				throw false;
+			for (size_t j = 0; j < ss.size(); j++)
+			{
+				if ((ss[j].second.r.size() != TMCG_Players) ||
+					(ss[j].second.r[0].size() != TMCG_TypeBits))
+						throw false;
+			}
 			// verify equality proof
 			if (mpz_get_ui(foo) & 1UL)
 				TMCG_MixStack(s2, s4, ss, ring, false);
@@ -1660,7 +1669,7 @@ bool SchindelhauerTMCG::TMCG_VerifyStackEquality
 					throw false;
 			}
 			// verify cyclic shift
-			if (cyclic)
+			if (cyclic && (ss.size() > 0))
 			{
 				size_t cyc = ss[0].first;
 				for (size_t j = 1; j < ss.size(); j++)
@@ -1721,6 +1730,9 @@ bool SchindelhauerTMCG::TMCG_VerifyStackEquality
 			in >> ss;
 			if (!in.good())
 				throw false;
+			// check whether the received secret fits the stacks
+			if (ss.size() != s.size())
+				throw false;
 			// verify equality proof
 			if (mpz_get_ui(foo) & 1UL)
 				TMCG_MixStack(s2, s4, ss, vtmf, false);
@@ -1740,7 +1752,7 @@ bool SchindelhauerTMCG::TMCG_VerifyStackEquality
 					throw false;
 			}
 			// verify cyclic shift
-			if (cyclic)
+			if (cyclic && (ss.size() > 0))
 			{
 				size_t cy = ss[0].first;
 				for (size_t j = 1; j < ss.size(); j++)
